@@ -539,8 +539,19 @@ def fallback_scale_rule(rule, c, fn, routine, kbmod):
         where = "src/C/%s:%s:%d" % (c.name, fn, c.line_of(node["b"]) + txt[:pos].count("\n"))
         want = (main[0][ib], main[0][iy], main[0][iinc])
         got = (args[1], args[2], args[3])
-        if got == want:
-            rule.ok(key, where, "scal(.., %s, %s, %s)" % got)
+        # xSCAL does nothing for a non-positive increment (xGEMV with incy < 0 addresses the same
+        # elements backwards): the fallback's increment is |incy|, a variable assigned abs(incy)
+        incv = want[2].lstrip("&")
+        mabs = re.match(r"&(\w+)$", got[2])
+        is_abs = bool(mabs) and mabs.group(1) != incv and \
+            re.search(r"\b%s\s*=\s*abs\s*\(\s*%s\s*\)\s*;" % (re.escape(mabs.group(1)), re.escape(incv)), txt) is not None
+        if got[:2] == want[:2] and is_abs:
+            rule.ok(key, where, "scal(.., %s, %s, &|%s|)" % (got[0], got[1], incv))
+        elif got == want:
+            rule.violation(key + ":increment", where,
+                           "the fallback hands the caller's signed increment `%s` to scal: for incy < 0 xSCAL does nothing, so y := beta*y "
+                           "(and y := 0 for the default beta) is skipped while the main routine would address the same elements backwards"
+                           % incv, "an increment assigned abs(%s)" % incv, got[2])
         else:
             rule.violation(key, where,
                            "the zero-dimension fallback computes y := (%s)*y on (%s, %s) but the main call passes beta = %s, y = %s, incy = %s: "
@@ -637,6 +648,13 @@ def signature_rule(rule, c, wrappers):
         if nvars != len(w.addr_vars):
             rule.violation(key + ":addresses", where, "%d address arguments for a format that stores %d values" % (len(w.addr_vars), nvars),
                            nvars, len(w.addr_vars))
+            continue
+        byval = [v for v in w.addr_vars if v in w.addr_bare and v in w.locals and not re.search(r"[*\[]", w.locals[v][0] or "")]
+        if byval:
+            rule.violation(key + ":by-value", where,
+                           "parse target(s) %s passed by value, not by address: PyArg_Parse* stores through the variable's current value "
+                           "(a NULL / wild pointer write as soon as the argument is supplied)" % ", ".join("`%s`" % v for v in byval),
+                           "&%s" % byval[0], byval)
             continue
         bad = []
         ai = 0
